@@ -13,14 +13,16 @@ open LtVerif B LtVerif.Deflate
 /-! ## negotiation: mod_deflate_choose_encoding() -/
 
 /-- The chosen coding is allowed by the configuration and listed by the client in an element
-    whose weight is not zero (never one the client marked `q=0`). -/
+    whose weight is not zero (never one the client marked `q=0`); its label occurs literally
+    in the header value. -/
 theorem c19_encoding_listed_allowed (allowed : List CSet) (hdr : Bytes) (c : Coding)
     (h : chooseEncoding allowed hdr = some c) :
     (∃ x ∈ allowed, x.mem c = true) ∧
-    (∃ e ∈ entries hdr, e.token = c.label ∧ e.q0 = false) := by
+    (∃ e ∈ entries hdr, e.token = c.label ∧ e.q0 = false) ∧
+    c.label <:+: hdr := by
   obtain ⟨pre, x, post, rfl, hx, hacc, _⟩ := chooseSet_spec h
   obtain ⟨e, he, hq, ht⟩ := acceptSet_mem hacc
-  exact ⟨⟨x, by simp, hx⟩, e, he, ht, hq⟩
+  exact ⟨⟨x, by simp, hx⟩, ⟨e, he, ht, hq⟩, ht ▸ entries_token_infix hdr e he⟩
 
 example : chooseEncoding (encodingsToFlags (some [Coding.gzip.label, Coding.deflate.label]))
     (ofString "gzip;q=0, deflate;q=0.5") = some .deflate := by decide
@@ -53,7 +55,7 @@ def Coding.base : Coding → Bytes
 theorem c19_encoding_config_allowed (l : List Bytes) (hl : l ≠ []) (hdr : Bytes) (c : Coding)
     (h : chooseEncoding (encodingsToFlags (some l)) hdr = some c) :
     ∃ v ∈ l, isInfix (Coding.base c) v = true := by
-  obtain ⟨⟨x, hx, hm⟩, _⟩ := c19_encoding_listed_allowed _ _ _ h
+  obtain ⟨⟨x, hx, hm⟩, _, _⟩ := c19_encoding_listed_allowed _ _ _ h
   cases l with
   | nil => exact absurd rfl hl
   | cons a l =>
